@@ -17,7 +17,7 @@ func init() {
 		ID:    "C17",
 		Title: "A cluster answers like a standalone node; part transfer is exact",
 		Decides: "(transfer half only) on the receiver every hand-over of chunk bytes to a part handler, and every advance of an expected-chunk counter, happens only on the checksum-match outcome — a chunk answered with a rejection status must not count as progress; sender and receiver compute the checksum the same way; only processExpectedChunk drives the handlers and it is entered only for the expected index; " +
-			"a received part is introduced only by FinishSync, after its metadata is written, and an abnormal end of the stream (deferred cleanup) can close but never finalize a part; Close of an unfinished context removes the partial directory and releases the segment; the sender reports failed parts with the same id format on the initial and the retry path and sends the sync introduction only after the transfer succeeded; the liaison's mem-part merge empties its group accumulator whenever the segment id changes (parts of two time segments are never merged into one shipped part).; the trace syncer sorts the streaming parts after the last append and before every hand-over to a node (parts of one id adjacent)",
+			"a received part is introduced only by FinishSync, after its metadata is written, and an abnormal end of the stream (deferred cleanup) can close but never finalize a part; Close of an unfinished context removes the partial directory and releases the segment; the sender reports failed parts with the same id format on the initial and the retry path and sends the sync introduction only after the transfer succeeded; the liaison's mem-part merge empties its group accumulator whenever the segment id changes (parts of two time segments are never merged into one shipped part).; the trace syncer sorts the streaming parts after the last append and before every hand-over to a node (parts of one id adjacent); a completion message reaches FinishSync only through a check that reads the sender's chunk / byte totals, and never when that check failed",
 		NotDecided: "cluster/standalone query equivalence, shard/segment attribution of rows end to end, receiver restarts, idempotence of re-processing after SERVER_BUSY.",
 		Technique:  "guarded-call / world pruning on the checksum comparison, interprocedural acceptance summary over status constants, who-may-call, static reachability from deferred cleanup, sibling agreement of formatting callees; must-reset between a group-change test and the next append",
 		Run:        runC17,
@@ -376,6 +376,89 @@ func runC17(c *core.Ctx) {
 			ok = ok && g
 		}
 		r.Check(ok, rule, construct, r.pos(exec[0]), "the parts are removed from the sender's snapshot only on the err == nil outcome of the transfer")
+	}
+
+	// a completion message finalizes the part only after the receiver has compared what it received with what the
+	// sender says it sent (chunk / byte totals, nothing left in the reordering buffer), and only if that check passed
+	if f := r.fn("c17.completion-verified-before-finish", sub, "(*server).handleCompletion"); f != nil {
+		rule := "c17.completion-verified-before-finish"
+		construct := ssax.FuncName(f) + ": FinishSync only after the sender's totals were verified"
+		var readsTotals func(fn *ssa.Function, d int) bool
+		readsTotals = func(fn *ssa.Function, d int) bool {
+			if fn == nil || fn.Blocks == nil {
+				return false
+			}
+			for _, b := range fn.Blocks {
+				for _, in := range b.Instrs {
+					if cc := ssax.Common(in); cc != nil {
+						nm := ssax.CalleeName(cc)
+						if strings.HasSuffix(nm, ").GetTotalChunks") || strings.HasSuffix(nm, ").GetTotalBytesSent") {
+							return true
+						}
+						if d > 0 && readsTotals(cc.StaticCallee(), d-1) {
+							return true
+						}
+					}
+					if fa, ok := in.(*ssa.FieldAddr); ok {
+						if fv := ssax.FieldOf(fa); fv != nil && (fv.Name() == "TotalChunks" || fv.Name() == "TotalBytesSent") {
+							return true
+						}
+					}
+				}
+			}
+			return false
+		}
+		isVerify := func(in ssa.Instruction) bool {
+			c, ok := in.(*ssa.Call)
+			return ok && c.Call.StaticCallee() != nil && readsTotals(c.Call.StaticCallee(), 2)
+		}
+		finish := func(in ssa.Instruction) bool {
+			cc := ssax.Common(in)
+			return cc != nil && strings.HasSuffix(ssax.CalleeName(cc), ".FinishSync")
+		}
+		verifies := ssax.Find(f, isVerify)
+		inline := readsTotals(f, 0)
+		switch {
+		case len(ssax.Find(f, finish)) == 0:
+			r.Undecide(rule, construct, r.fpos(f), "no FinishSync call")
+		case len(verifies) == 0 && !inline:
+			r.Violate(rule, construct, r.fpos(f), "the completion's TotalChunks / TotalBytesSent are never looked at: a lost chunk followed by the completion installs a truncated part and the session is answered SYNC_COMPLETE success")
+		case len(verifies) == 0:
+			r.Hold(rule, construct, r.fpos(f), "totals compared inline")
+		default:
+			bad := false
+			if tgt, path, found := (ssax.Search{Target: finish, Avoid: isVerify}).From(f, nil); found {
+				bad = true
+				r.Violate(rule, construct, r.pos(tgt), fmt.Sprintf("FinishSync is reachable (blocks %s) without the verification call", blocksStr(path)))
+			}
+			for _, v := range verifies {
+				var e ssa.Value
+				c := v.(*ssa.Call)
+				if c.Common().Signature().Results().Len() == 1 {
+					e = c
+				}
+				if e == nil {
+					continue
+				}
+				atom := func(x ssa.Value) (bool, bool) {
+					bo, ok := x.(*ssa.BinOp)
+					if !ok || bo.Op != token.NEQ && bo.Op != token.EQL {
+						return false, false
+					}
+					if bo.X == e && ssax.IsNilConst(bo.Y) || bo.Y == e && ssax.IsNilConst(bo.X) {
+						return bo.Op == token.NEQ, true
+					}
+					return false, false
+				}
+				if tgt, path, found := worldSearch(f, v, finish, atom); found && !bad {
+					bad = true
+					r.Violate(rule, construct, r.pos(tgt), fmt.Sprintf("FinishSync is reachable (blocks %s) although the verification at %s failed", blocksStr(path), r.pos(v)))
+				}
+			}
+			if !bad {
+				r.Hold(rule, construct, r.pos(verifies[0]), fmt.Sprintf("%d verification call(s) dominate FinishSync and gate it", len(verifies)))
+			}
+		}
 	}
 
 	// trace ships core and secondary-index parts in one stream; the receiver opens a new part context whenever
